@@ -2,6 +2,8 @@ package c03
 
 import (
 	"bufio"
+	"bytes"
+	"compress/gzip"
 	"crypto/sha1"
 	"encoding/base64"
 	"encoding/json"
@@ -51,6 +53,23 @@ type outcome struct {
 	Elapsed time.Duration
 	Detail  string
 	Saw100  bool // the interim response 100 Continue was received (class label only)
+	// How the client's HTTP parser saw a final response whose body it read without an error:
+	// Framed "cl" (exactly Content-Length bytes arrived) or "chunked" (the terminating chunk and the trailer
+	// section arrived) = the response is framed as COMPLETE and the connection stays usable; "close" = the
+	// body was delimited by the end of the connection (that end is a closed connection).
+	Framed string
+	// Coding: "" | "gzip" (Content-Encoding: gzip, decoded without an error: BodyLen/body are the decoded
+	// bytes) | "gzip-corrupt" (the gzip stream is damaged or cut short: visibly incomplete to the client)
+	Coding  string
+	BodyLen int
+	body    []byte // the whole (decoded) body of a response read to its end
+	method  string
+}
+
+// completeSuccess: the client has every reason to take the response for a complete success - 2xx
+// status, framed as complete, content coding (if any) intact.
+func (o outcome) completeSuccess() bool {
+	return o.Ended && o.Status >= 200 && o.Status <= 299 && (o.Framed == "cl" || o.Framed == "chunked") && o.Coding != "gzip-corrupt"
 }
 
 func (o outcome) String() string {
@@ -59,6 +78,9 @@ func (o outcome) String() string {
 		return fmt.Sprintf("NO END after %v (%s)", o.Elapsed.Round(time.Millisecond), o.Detail)
 	case o.Status == 0:
 		return fmt.Sprintf("closed after %v (%s)", o.Elapsed.Round(time.Millisecond), o.Detail)
+	}
+	if o.Framed != "" {
+		return fmt.Sprintf("%d (%s, %d body bytes%s) after %v", o.Status, o.Framed, o.BodyLen, map[bool]string{true: ", " + o.Coding}[o.Coding != ""], o.Elapsed.Round(time.Millisecond))
 	}
 	return fmt.Sprintf("%d after %v", o.Status, o.Elapsed.Round(time.Millisecond))
 }
@@ -258,6 +280,24 @@ func exchange(addr, id, xff string, sh reqShape, acceptGzip bool, limit time.Dur
 		out.Status = 0
 		return out
 	}
+	switch {
+	case final.ContentLength >= 0:
+		out.Framed = "cl"
+	case len(final.TransferEncoding) > 0 && final.TransferEncoding[0] == "chunked":
+		out.Framed = "chunked"
+	default:
+		out.Framed = "close"
+	}
+	if strings.EqualFold(strings.TrimSpace(final.Header.Get("Content-Encoding")), "gzip") && sh.method != "HEAD" {
+		// decode before judging: a client that asked for gzip looks at the decoded bytes
+		out.Coding = "gzip-corrupt"
+		if zr, err := gzip.NewReader(bytes.NewReader(rbody)); err == nil {
+			if dec, err := io.ReadAll(zr); err == nil {
+				out.Coding, rbody = "gzip", dec
+			}
+		}
+	}
+	out.body, out.BodyLen, out.method = rbody, len(rbody), sh.method
 	out.Body = string(rbody[:min(len(rbody), 160)])
 	switch {
 	case strings.HasPrefix(string(rbody), "good-backend"):
@@ -345,8 +385,11 @@ func parts(n, size int) []int {
 // faultScript is what the FAULTY backend plays for one request of a step (k = index in the burst).
 // stall: the even-numbered slow-body requests of a burst stall completely after part 8 (excluded
 // while the finding KeyBodyStall is open: then every slow-body request is the 3 s trickle).
-func faultScript(fault string, k int, stall bool) *lab.RespScript {
+// framing: how the response is framed where the fault leaves a response head (5xx and the three
+// mid-body faults): Content-Length, chunked, or delimited by closing the connection.
+func faultScript(fault string, k int, stall bool, framing string) *lab.RespScript {
 	s := okScript("faulty")
+	fr := framingOf(framing)
 	switch fault {
 	case "refuse":
 		// new connections are reset by Refuse(true); a request arriving on a pooled connection is reset too
@@ -356,23 +399,36 @@ func faultScript(fault string, k int, stall bool) *lab.RespScript {
 		s.Fault = "hang-before-headers"
 		s.Continue100 = false // a backend that hangs before its response head sends no interim response either
 	case "reset-after-headers":
+		// the head promises a body (Content-Length: 1000 / Transfer-Encoding: chunked / Connection: close), then RST
 		s.Body = make([]byte, 1000)
 		s.Fault = "reset-after-headers"
+		s.Framing = fr
 	case "short-body":
-		s.Body = make([]byte, 500) // Content-Length 600, 500 sent, then closed
 		s.Fault = "short-body"
+		if fr == "cl" {
+			s.Body = make([]byte, 500) // Content-Length 600, 500 sent, then closed
+			break
+		}
+		// chunked: the stream ends (FIN) without the terminating chunk - after a whole chunk (requests 0, 3 of
+		// a burst) or in the middle of one (requests 1, 2). A body delimited by the end of the connection cannot
+		// be short, so "close" is played like "chunked". The script frames its body itself (lab framing "none").
+		s.Framing = "none"
+		s.Header = append(append([]lab.KV(nil), textPlain...), lab.KV{K: "Transfer-Encoding", V: "chunked"})
+		s.Body = cutChunked(k%4 == 1 || k%4 == 2)
 	case "garbage":
 		s.Fault = "garbage"
 		s.Continue100 = false
 	case "5xx":
 		s.Status = []int{500, 503, 502, 504}[k%4]
 		s.Body = []byte("boom")
+		s.Framing = fr
 	case "slow-body":
 		// 20 ms trickle of 150 parts = 3 s, longer than the server write timeout; the stalling variant
 		// stops completely after part 8 (released only when the step is over)
 		s.Body = bigBody[:150*512]
 		s.Parts = parts(150, 512)
 		s.Fault = "slow-body"
+		s.Framing = fr
 		if stall && k%2 == 0 {
 			s.BarrierAfter = 8
 		}
@@ -380,6 +436,34 @@ func faultScript(fault string, k int, stall bool) *lab.RespScript {
 		s = downloadScript()
 	}
 	return s
+}
+
+// cutChunked is a chunked body that never gets its terminating chunk: two chunks of 250 bytes; inside:
+// the second chunk announces 350 bytes and carries 250.
+func cutChunked(inside bool) []byte {
+	var b bytes.Buffer
+	chunk := make([]byte, 250)
+	fmt.Fprintf(&b, "%x\r\n%s\r\n", len(chunk), chunk)
+	if inside {
+		fmt.Fprintf(&b, "%x\r\n%s", 350, chunk)
+	} else {
+		fmt.Fprintf(&b, "%x\r\n%s\r\n", len(chunk), chunk)
+	}
+	return b.Bytes()
+}
+
+// fullBody is the complete body the script's response head stands for, or nil when the script can never
+// deliver one to a client call of its step (no response, 101, a body cut short, reset or stalled: the
+// stall is only released after every client call of the step has ended).
+func fullBody(s *lab.RespScript) ([]byte, bool) {
+	switch s.Fault {
+	case "reset-before-headers", "hang-before-headers", "garbage", "reset-after-headers", "short-body":
+		return nil, false
+	}
+	if s.Status == http.StatusSwitchingProtocols || (s.BarrierAfter >= 0 && s.BarrierAfter < len(s.Parts)-1) {
+		return nil, false
+	}
+	return s.Body, true
 }
 
 func downloadScript() *lab.RespScript {
@@ -589,17 +673,16 @@ type stepOpt struct {
 }
 
 func (w *world) runStepOpt(run, idx int, s Step, opt stepOpt) (string, []outcome) {
-	n := 4
-	if s.Concurrent > 0 {
-		n = s.Concurrent
-	}
+	n := s.requests()
 	if opt.n > 0 {
 		n = opt.n
 	}
+	opt.both = opt.both || s.Both
 	type reg struct {
 		id      string
 		exGood  *lab.Exchange
 		exFault *lab.Exchange
+		gs, fs  *lab.RespScript
 	}
 	regs := make([]reg, n)
 	shapes := make([]reqShape, n)
@@ -611,17 +694,17 @@ func (w *world) runStepOpt(run, idx int, s Step, opt stepOpt) (string, []outcome
 		}
 		// the backend that is not the target plays the well-behaved answer; so does FAULTY under the
 		// two client faults (there the client is the one that misbehaves)
-		gs, fs := wellBehaved("good", s.Fault, shapes[k], k), faultScript(s.Fault, k, stalls(shapes[k]))
+		gs, fs := wellBehaved("good", s.Fault, shapes[k], k), faultScript(s.Fault, k, stalls(shapes[k]), s.Framing)
 		if abortFault(s.Fault) {
 			fs = wellBehaved("faulty", s.Fault, shapes[k], k)
 		}
 		if opt.both {
-			gs = faultScript(s.Fault, k, stalls(shapes[k]))
+			gs = faultScript(s.Fault, k, stalls(shapes[k]), s.Framing)
 			if abortFault(s.Fault) {
 				gs = wellBehaved("faulty", s.Fault, shapes[k], k)
 			}
 		}
-		regs[k] = reg{id, w.good.Expect(id, gs), w.faulty.Expect(id, fs)}
+		regs[k] = reg{id, w.good.Expect(id, gs), w.faulty.Expect(id, fs), gs, fs}
 	}
 	faultyBefore, goodBefore := w.faulty.Accepts(), w.good.Accepts()
 	if s.Fault == "refuse" {
@@ -639,7 +722,8 @@ func (w *world) runStepOpt(run, idx int, s Step, opt stepOpt) (string, []outcome
 		case "client-abort-download":
 			outs[k] = exchange(w.proxy, regs[k].id, xff, shapes[k], true, wedgeAfter, abortDownload)
 		default:
-			outs[k] = exchange(w.proxy, regs[k].id, xff, shapes[k], k%2 == 0, wedgeAfter, complete)
+			// requests 0, 1, 4, 5 of a burst accept gzip (so that under every strategy FAULTY sees both variants)
+			outs[k] = exchange(w.proxy, regs[k].id, xff, shapes[k], (k/2)%2 == 0, wedgeAfter, complete)
 		}
 	}
 	if s.Concurrent > 0 {
@@ -686,7 +770,7 @@ func (w *world) runStepOpt(run, idx int, s Step, opt stepOpt) (string, []outcome
 	} else {
 		w.label("not-delivered:" + s.Fault)
 	}
-	where := fmt.Sprintf("run %d step %d (%s on %s requests, %s)", run, idx, s.Fault, kindOf(s.Kind), map[bool]string{true: "concurrent", false: "sequential"}[s.Concurrent > 0])
+	where := fmt.Sprintf("run %d step %d (%s)", run, idx, s)
 	bound := w.c.Cfg.endBound()
 	for k, o := range outs {
 		switch {
@@ -704,8 +788,74 @@ func (w *world) runStepOpt(run, idx int, s Step, opt stepOpt) (string, []outcome
 		if o.Elapsed > bound {
 			return fmt.Sprintf("(i) late: %s request %d ended only after %v, bound 2*(read+write+backend_dial+backend_read)+2 s = %v; all calls of the step: %v", where, k, o.Elapsed.Round(time.Millisecond), bound, outs), outs
 		}
+		// HOW the call ended: "error response or closed connection". A response the client has every reason
+		// to take for a complete success (2xx, framed as complete, content coding intact) is neither - unless
+		// it really is one: the complete body of a response a backend was scripted to give to this request
+		// (GOOD's answer, FAULTY's where its script runs to the end, or the small 200 both backends give to a
+		// request the proxy's transport re-sent). Client-abort steps: the client is the one that leaves.
+		if abortFault(s.Fault) || o.method == "HEAD" {
+			continue
+		}
+		if o.Framed == "close" && o.Status >= 200 && o.Status <= 299 {
+			w.label("ends:2xx-delimited-by-connection-close")
+		}
+		if o.Coding == "gzip-corrupt" {
+			w.label("ends:damaged-gzip-stream")
+		}
+		if !o.completeSuccess() {
+			continue
+		}
+		genuine := bytes.Equal(o.body, []byte("good-backend ok")) || bytes.Equal(o.body, []byte("faulty-backend ok"))
+		var scripted []string
+		for _, sc := range []*lab.RespScript{regs[k].gs, regs[k].fs} {
+			full, ok := fullBody(sc)
+			genuine = genuine || (ok && bytes.Equal(o.body, full))
+			scripted = append(scripted, describeScript(sc))
+		}
+		if genuine {
+			w.label("ends:2xx-with-a-complete-backend-body")
+			continue
+		}
+		coding := ""
+		if o.Coding == "gzip" {
+			coding = " (a valid gzip stream, length after decoding)"
+		}
+		return fmt.Sprintf("(i) neither an error response nor a closed connection: %s request %d was answered %d and the response is framed as complete (%s: %s) on a connection left usable, "+
+			"but its body of %d bytes%s is not the complete body of any response a backend gave to this request - a cut-off backend response was passed on as a success. Scripted for this request: GOOD %s; FAULTY %s. Body starts %q; all calls of the step: %v",
+			where, k, o.Status, o.Framed, map[string]string{"cl": "exactly Content-Length bytes arrived", "chunked": "terminating chunk received"}[o.Framed], o.BodyLen, coding, scripted[0], scripted[1], o.Body[:min(len(o.Body), 40)], outs), outs
 	}
 	return "", outs
+}
+
+// describeScript says in words what a backend was scripted to answer.
+func describeScript(s *lab.RespScript) string {
+	full, ok := fullBody(s)
+	switch {
+	case s.Status == http.StatusSwitchingProtocols:
+		return "101 Switching Protocols"
+	case ok:
+		return fmt.Sprintf("%d with a complete body of %d bytes (framing %s)", s.Status, len(full), s.Framing)
+	case s.Fault == "slow-body":
+		return fmt.Sprintf("%d (framing %s), %d of %d body bytes, then a stall until the step is over", s.Status, s.Framing, (s.BarrierAfter+1)*512, len(s.Body))
+	case s.Fault == "short-body" && s.Framing == "cl":
+		return fmt.Sprintf("%d, Content-Length %d, %d body bytes, then FIN", s.Status, len(s.Body)+100, len(s.Body))
+	case s.Fault == "short-body":
+		return fmt.Sprintf("%d, Transfer-Encoding: chunked, 500 body bytes, then FIN without the terminating chunk", s.Status)
+	case s.Fault == "reset-after-headers":
+		return fmt.Sprintf("%d (framing %s, body of %d bytes promised), then RST right after the head", s.Status, s.Framing, len(s.Body))
+	}
+	return "no response (" + s.Fault + ")"
+}
+
+// pause is a quiet period: nothing is sent for s.PauseMs, measured from the end of the previous step.
+func (w *world) pause(s Step) {
+	from := w.lastFault
+	if from.IsZero() {
+		from = time.Now()
+	}
+	time.Sleep(time.Until(from.Add(time.Duration(s.PauseMs) * time.Millisecond)))
+	w.lastFault = time.Now() // the recovery window of clause (ii) starts when the quiet period is over
+	w.label("quiet-period")
 }
 
 // ---------------------------------------------------------------------------------------------
@@ -1214,7 +1364,7 @@ func runOnce(t testing.TB, c Case) (res Result) {
 		if w.delivered > 0 {
 			w.label("fault-delivered")
 		}
-		if w.delivered == len(c.Steps) && c.Kind == "" {
+		if w.delivered == c.faults() && c.Kind == "" {
 			w.label("all-faults-delivered")
 		}
 		for l := range w.labels {
@@ -1245,6 +1395,13 @@ func runOnce(t testing.TB, c Case) (res Result) {
 			}
 		default:
 			for i, s := range c.Steps {
+				if s.Fault == Pause {
+					w.pause(s)
+					if v := w.alive(fmt.Sprintf("after run %d step %d (%s)", run+1, i+1, s)); v != "" {
+						return Result{Violation: v}
+					}
+					continue
+				}
 				if v := w.runStep(run+1, i+1, s); v != "" {
 					return Result{Violation: v}
 				}
